@@ -789,6 +789,23 @@ func (h *h18) tellActor(who int) {
 func dec(s string) sdk.Dec { return sdk.MustNewDecFromStr(s) }
 
 func runC18(r *Rec) {
+	h := c18Setup(r)
+	h.spendScenarios()
+	h.ubiScenarios()
+	h.collScenarios()
+}
+
+// ubiFor runs the UBI scenarios (records around their period boundaries, failing deposits, the annual gate - also closing
+// in the middle of a block) inside the check of another property: C13 bounds what UBI may mint.
+func ubiFor(r *Rec, prop string) {
+	r.OnlyProp = prop
+	h := c18Setup(r)
+	h.ubiScenarios()
+	r.OnlyProp = ""
+	r.Mark("ubi done")
+}
+
+func c18Setup(r *Rec) *h18 {
 	w := NewWorld(WorldOpts{NAcc: 8, NVal: 1, SudoAccs: []int{0}})
 	h := &h18{r: r, w: w, ctx: w.KeeperCtx(), idx: map[string]int{}, did: map[string]int{}, led: map[string]*claimLedger{}, ubiL: map[int]int64{}}
 	h.t0 = h.ctx.BlockTime().Unix()
@@ -816,7 +833,5 @@ func runC18(r *Rec) {
 		r.Op(fmt.Sprintf("spend setpool name=%s %s", p.Name, h.poolStr(&pp)), "ok")
 		h.obs([]string{p.Name}, nil)
 	}
-	h.spendScenarios()
-	h.ubiScenarios()
-	h.collScenarios()
+	return h
 }
